@@ -105,6 +105,11 @@ package vm
 //@ spec fun rvZero(t reflect.Type) reflect.Value
 //@ spec fun typeElem(t reflect.Type) reflect.Type
 //@ spec fun typeKey(t reflect.Type) reflect.Type
+//@ spec fun rtNumOut(t reflect.Type) int
+// Go's own container operations as reflect performs them: v[i:j:k] (shares storage, capacity k-i), cap(v), structural equality
+//@ spec fun rvSlice3(v reflect.Value, i int, j int, k int) reflect.Value
+//@ spec fun rvCap(v reflect.Value) int
+//@ spec fun deepEqS(x any, y any) bool
 // rvAppendSlice(s, t): Go's append(s, t...) as reflect.AppendSlice performs it (sharing and growth rules included)
 //@ spec fun rvAppendSlice(s reflect.Value, t reflect.Value) reflect.Value
 // struct fields by name (reflect.Type.FieldByName: found / index path, promoted fields included) and by index path
